@@ -1,4 +1,5 @@
 import Proofs.Lemmas.Sort
+import InToto.Meta
 /-!
 # Injectivity of canonical JSON (`encode_canonical`) and of the DSSE PAE
 
@@ -159,5 +160,401 @@ theorem intStr_head (n : Int) : ∃ c rest, intStr n = c :: rest ∧ (isDigitC c
     | nil => exact absurd hda (natDigits_ne_nil a)
     | cons c cs => exact ⟨c, cs, rfl, .inl (natDigits_digits a c (by rw [hda]; exact List.mem_cons_self))⟩
   | negSucc a => exact ⟨'-', _, rfl, .inr rfl⟩
+
+
+/-! ## Rendering without sorting
+
+`enc` renders a value the way `canon` does but keeps the members of objects in
+the order given, and (unlike `canon`) renders a float as a tagged string so that
+`enc` is total and injective on *all* values. `canon v = some (enc (norm v))`
+(`canon_eq_enc_norm`), and `enc` is uniquely decodable (`enc_inj`). -/
+
+mutual
+def enc : JVal → Str
+  | .str s => qstr s
+  | .int n => intStr n
+  | .bool true => lit "true"
+  | .bool false => lit "false"
+  | .null => lit "null"
+  | .float r => 'F' :: qstr r
+  | .arr xs => '[' :: (joinWith [','] (encList xs) ++ [']'])
+  | .obj kvs => '{' :: (renderMembers (encMembers kvs) ++ ['}'])
+def encList : List JVal → List Str
+  | [] => []
+  | x :: r => enc x :: encList r
+def encMembers : List (Str × JVal) → List (Str × Str)
+  | [] => []
+  | (k, v) :: r => (k, enc v) :: encMembers r
+end
+
+/-- What follows the first element of an array body: `,elem`* then `]`. -/
+def listTail : List Str → Str → Str
+  | [], s => ']' :: s
+  | a :: r, s => ',' :: (a ++ listTail r s)
+
+/-- An array body followed by `s`. -/
+def listBody : List Str → Str → Str
+  | [], s => ']' :: s
+  | a :: r, s => a ++ listTail r s
+
+theorem joinWith_listBody : ∀ (rs : List Str) (s : Str), joinWith [','] rs ++ ']' :: s = listBody rs s
+  | [], s => rfl
+  | [a], s => rfl
+  | a :: b :: r, s => by
+    have ih := joinWith_listBody (b :: r) s
+    simp only [joinWith, listBody, listTail, List.append_assoc, List.cons_append, List.nil_append] at ih ⊢
+    rw [ih]
+
+def memTail : List (Str × Str) → Str → Str
+  | [], s => '}' :: s
+  | (k, v) :: r, s => ',' :: (qstr k ++ ':' :: (v ++ memTail r s))
+
+def memBody : List (Str × Str) → Str → Str
+  | [], s => '}' :: s
+  | (k, v) :: r, s => qstr k ++ ':' :: (v ++ memTail r s)
+
+theorem renderMembers_memBody : ∀ (ms : List (Str × Str)) (s : Str), renderMembers ms ++ '}' :: s = memBody ms s
+  | [], s => rfl
+  | [(k, v)], s => by simp [renderMembers, memBody, memTail]
+  | (k, v) :: y :: r, s => by
+    have ih := renderMembers_memBody (y :: r) s
+    obtain ⟨k2, v2⟩ := y
+    simp only [renderMembers, memBody, memTail, List.append_assoc, List.cons_append] at ih ⊢
+    rw [ih]
+
+/-- Class of a value by its first rendered character. -/
+def kind : JVal → Nat
+  | .str _ => 0
+  | .int _ => 1
+  | .bool true => 2
+  | .bool false => 3
+  | .null => 4
+  | .arr _ => 5
+  | .obj _ => 6
+  | .float _ => 7
+
+def charKind (c : Char) : Nat :=
+  if c = '"' then 0 else if isDigitC c = true ∨ c = '-' then 1 else if c = 't' then 2 else if c = 'f' then 3
+  else if c = 'n' then 4 else if c = '[' then 5 else if c = '{' then 6 else if c = 'F' then 7 else 8
+
+theorem charKind_digit (c : Char) (h : isDigitC c = true ∨ c = '-') : charKind c = 1 := by
+  unfold charKind
+  have : c ≠ '"' := by
+    rcases h with h | h
+    · intro hc; rw [hc] at h; exact absurd h (by decide)
+    · rw [h]; decide
+  simp [this, h]
+
+theorem enc_head (v : JVal) : ∃ c rest, enc v = c :: rest ∧ charKind c = kind v := by
+  cases v with
+  | str s => exact ⟨'"', _, rfl, rfl⟩
+  | int n =>
+    obtain ⟨c, rest, h, hc⟩ := intStr_head n
+    exact ⟨c, rest, by simp [enc, h], charKind_digit c hc⟩
+  | bool b =>
+    cases b
+    · exact ⟨'f', ['a', 'l', 's', 'e'], rfl, rfl⟩
+    · exact ⟨'t', ['r', 'u', 'e'], rfl, rfl⟩
+  | null => exact ⟨'n', ['u', 'l', 'l'], rfl, rfl⟩
+  | float r => exact ⟨'F', _, rfl, rfl⟩
+  | arr xs => exact ⟨'[', joinWith [','] (encList xs) ++ [']'], by simp only [enc], rfl⟩
+  | obj kvs => exact ⟨'{', renderMembers (encMembers kvs) ++ ['}'], by simp only [enc], rfl⟩
+
+theorem kind_eq_of_enc_eq (v w : JVal) (s t : Str) (h : enc v ++ s = enc w ++ t) : kind v = kind w := by
+  obtain ⟨c, r, hv, hc⟩ := enc_head v
+  obtain ⟨d, r', hw, hd⟩ := enc_head w
+  rw [hv, hw] at h
+  simp only [List.cons_append, List.cons.injEq] at h
+  rw [← hc, ← hd, h.1]
+
+theorem enc_head_ne (v : JVal) (s : Str) (c : Char) (t : Str) (hc : charKind c = 8) : enc v ++ s ≠ c :: t := by
+  obtain ⟨d, r, hv, hd⟩ := enc_head v
+  rw [hv]
+  intro h
+  simp only [List.cons_append, List.cons.injEq] at h
+  rw [h.1, hc] at hd
+  cases v with
+  | bool b => cases b <;> simp [kind] at hd
+  | _ => simp [kind] at hd
+
+
+/-! ## `enc` is uniquely decodable -/
+
+theorem noDigit_nil : NoDigitHead [] := by intro c h; cases h
+
+theorem noDigit_cons (c : Char) (s : Str) (h : isDigitC c = false) : NoDigitHead (c :: s) := by
+  intro d hd
+  simp only [List.head?_cons, Option.some.injEq] at hd
+  rw [← hd]; exact h
+
+theorem listTail_noDigit (rs : List Str) (s : Str) : NoDigitHead (listTail rs s) := by
+  cases rs with
+  | nil => exact noDigit_cons _ _ (by decide)
+  | cons a r => exact noDigit_cons _ _ (by decide)
+
+theorem memTail_noDigit (ms : List (Str × Str)) (s : Str) : NoDigitHead (memTail ms s) := by
+  cases ms with
+  | nil => exact noDigit_cons _ _ (by decide)
+  | cons a r => obtain ⟨k, v⟩ := a; exact noDigit_cons _ _ (by decide)
+
+mutual
+/-- A rendered value followed by a non-digit (or nothing) determines the value
+and the rest. -/
+theorem enc_inj : ∀ (v w : JVal) (s t : Str), NoDigitHead s → NoDigitHead t →
+    enc v ++ s = enc w ++ t → v = w ∧ s = t
+  | .str a, w, s, t, _, _, h => by
+    have hk := kind_eq_of_enc_eq _ _ _ _ h
+    cases w with
+    | str b =>
+      simp only [enc] at h
+      obtain ⟨rfl, rfl⟩ := qstr_inj a b s t h
+      exact ⟨rfl, rfl⟩
+    | bool b => cases b <;> simp [kind] at hk
+    | _ => simp [kind] at hk
+  | .int a, w, s, t, hs, ht, h => by
+    have hk := kind_eq_of_enc_eq _ _ _ _ h
+    cases w with
+    | int b =>
+      simp only [enc] at h
+      obtain ⟨rfl, rfl⟩ := intStr_inj a b s t hs ht h
+      exact ⟨rfl, rfl⟩
+    | bool b => cases b <;> simp [kind] at hk
+    | _ => simp [kind] at hk
+  | .bool true, w, s, t, _, _, h => by
+    have hk := kind_eq_of_enc_eq _ _ _ _ h
+    cases w with
+    | bool b =>
+      cases b
+      · simp [kind] at hk
+      · simp only [enc, List.append_cancel_left_eq] at h
+        exact ⟨rfl, h⟩
+    | _ => simp [kind] at hk
+  | .bool false, w, s, t, _, _, h => by
+    have hk := kind_eq_of_enc_eq _ _ _ _ h
+    cases w with
+    | bool b =>
+      cases b
+      · simp only [enc, List.append_cancel_left_eq] at h
+        exact ⟨rfl, h⟩
+      · simp [kind] at hk
+    | _ => simp [kind] at hk
+  | .null, w, s, t, _, _, h => by
+    have hk := kind_eq_of_enc_eq _ _ _ _ h
+    cases w with
+    | null =>
+      simp only [enc, List.append_cancel_left_eq] at h
+      exact ⟨rfl, h⟩
+    | bool b => cases b <;> simp [kind] at hk
+    | _ => simp [kind] at hk
+  | .float a, w, s, t, _, _, h => by
+    have hk := kind_eq_of_enc_eq _ _ _ _ h
+    cases w with
+    | float b =>
+      simp only [enc, List.cons_append, List.cons.injEq, true_and] at h
+      obtain ⟨rfl, rfl⟩ := qstr_inj a b s t h
+      exact ⟨rfl, rfl⟩
+    | bool b => cases b <;> simp [kind] at hk
+    | _ => simp [kind] at hk
+  | .arr xs, w, s, t, _, _, h => by
+    have hk := kind_eq_of_enc_eq _ _ _ _ h
+    cases w with
+    | arr ys =>
+      simp only [enc, List.cons_append, List.append_assoc, List.cons.injEq, true_and, List.nil_append] at h
+      rw [joinWith_listBody, joinWith_listBody] at h
+      obtain ⟨rfl, rfl⟩ := encList_body_inj xs ys s t h
+      exact ⟨rfl, rfl⟩
+    | bool b => cases b <;> simp [kind] at hk
+    | _ => simp [kind] at hk
+  | .obj kvs, w, s, t, _, _, h => by
+    have hk := kind_eq_of_enc_eq _ _ _ _ h
+    cases w with
+    | obj kvs' =>
+      simp only [enc, List.cons_append, List.append_assoc, List.cons.injEq, true_and, List.nil_append] at h
+      rw [renderMembers_memBody, renderMembers_memBody] at h
+      obtain ⟨rfl, rfl⟩ := encMembers_body_inj kvs kvs' s t h
+      exact ⟨rfl, rfl⟩
+    | bool b => cases b <;> simp [kind] at hk
+    | _ => simp [kind] at hk
+
+theorem encList_body_inj : ∀ (xs ys : List JVal) (s t : Str),
+    listBody (encList xs) s = listBody (encList ys) t → xs = ys ∧ s = t
+  | [], [], s, t, h => by simpa [encList, listBody] using h
+  | [], y :: ys, s, t, h => by
+    simp only [encList, listBody] at h
+    exact absurd h.symm (enc_head_ne y _ ']' s (by decide))
+  | x :: xs, [], s, t, h => by
+    simp only [encList, listBody] at h
+    exact absurd h (enc_head_ne x _ ']' t (by decide))
+  | x :: xs, y :: ys, s, t, h => by
+    simp only [encList, listBody] at h
+    obtain ⟨rfl, h'⟩ := enc_inj x y _ _ (listTail_noDigit _ _) (listTail_noDigit _ _) h
+    obtain ⟨rfl, rfl⟩ := encList_tail_inj xs ys s t h'
+    exact ⟨rfl, rfl⟩
+
+theorem encList_tail_inj : ∀ (xs ys : List JVal) (s t : Str),
+    listTail (encList xs) s = listTail (encList ys) t → xs = ys ∧ s = t
+  | [], [], s, t, h => by simpa [encList, listTail] using h
+  | [], y :: ys, s, t, h => by simp [encList, listTail] at h
+  | x :: xs, [], s, t, h => by simp [encList, listTail] at h
+  | x :: xs, y :: ys, s, t, h => by
+    simp only [encList, listTail, List.cons.injEq, true_and] at h
+    obtain ⟨rfl, h'⟩ := enc_inj x y _ _ (listTail_noDigit _ _) (listTail_noDigit _ _) h
+    obtain ⟨rfl, rfl⟩ := encList_tail_inj xs ys s t h'
+    exact ⟨rfl, rfl⟩
+
+theorem encMembers_body_inj : ∀ (xs ys : List (Str × JVal)) (s t : Str),
+    memBody (encMembers xs) s = memBody (encMembers ys) t → xs = ys ∧ s = t
+  | [], [], s, t, h => by simpa [encMembers, memBody] using h
+  | [], (k, y) :: ys, s, t, h => by simp [encMembers, memBody, qstr] at h
+  | (k, x) :: xs, [], s, t, h => by simp [encMembers, memBody, qstr] at h
+  | (k, x) :: xs, (k', y) :: ys, s, t, h => by
+    simp only [encMembers, memBody] at h
+    obtain ⟨rfl, h1⟩ := qstr_inj k k' _ _ h
+    simp only [List.cons.injEq, true_and] at h1
+    obtain ⟨rfl, h'⟩ := enc_inj x y _ _ (memTail_noDigit _ _) (memTail_noDigit _ _) h1
+    obtain ⟨rfl, rfl⟩ := encMembers_tail_inj xs ys s t h'
+    exact ⟨rfl, rfl⟩
+
+theorem encMembers_tail_inj : ∀ (xs ys : List (Str × JVal)) (s t : Str),
+    memTail (encMembers xs) s = memTail (encMembers ys) t → xs = ys ∧ s = t
+  | [], [], s, t, h => by simpa [encMembers, memTail] using h
+  | [], (k, y) :: ys, s, t, h => by simp [encMembers, memTail] at h
+  | (k, x) :: xs, [], s, t, h => by simp [encMembers, memTail] at h
+  | (k, x) :: xs, (k', y) :: ys, s, t, h => by
+    simp only [encMembers, memTail, List.cons.injEq, true_and] at h
+    obtain ⟨rfl, h1⟩ := qstr_inj k k' _ _ h
+    simp only [List.cons.injEq, true_and] at h1
+    obtain ⟨rfl, h'⟩ := enc_inj x y _ _ (memTail_noDigit _ _) (memTail_noDigit _ _) h1
+    obtain ⟨rfl, rfl⟩ := encMembers_tail_inj xs ys s t h'
+    exact ⟨rfl, rfl⟩
+end
+
+
+/-! ## `canon` = `enc` after sorting members at every depth -/
+
+mutual
+/-- The value with the members of every object sorted by key (stable). -/
+def norm : JVal → JVal
+  | .str s => .str s
+  | .int n => .int n
+  | .bool b => .bool b
+  | .null => .null
+  | .float r => .float r
+  | .arr xs => .arr (normList xs)
+  | .obj kvs => .obj (sortMembers (normMembers kvs))
+def normList : List JVal → List JVal
+  | [] => []
+  | x :: r => norm x :: normList r
+def normMembers : List (Str × JVal) → List (Str × JVal)
+  | [] => []
+  | (k, v) :: r => (k, norm v) :: normMembers r
+end
+
+theorem encMembers_eq_map : ∀ (l : List (Str × JVal)), encMembers l = l.map (fun p => (p.1, enc p.2))
+  | [] => rfl
+  | (k, v) :: r => by simp [encMembers, encMembers_eq_map r]
+
+theorem sortMembers_encMembers (l : List (Str × JVal)) :
+    sortMembers (encMembers l) = encMembers (sortMembers l) := by
+  rw [encMembers_eq_map, encMembers_eq_map]
+  unfold sortMembers
+  exact (List.map_mergeSort (f := fun p : Str × JVal => (p.1, enc p.2))
+    (r := fun a b => strLe a.1 b.1) (s := fun a b => strLe a.1 b.1) (fun a _ b _ => rfl)).symm
+
+mutual
+theorem canon_eq_enc_norm : ∀ (v : JVal) (s : Str), canon v = some s → s = enc (norm v)
+  | .str a, s, h => by simp only [canon, Option.some.injEq] at h; simp [norm, enc, ← h]
+  | .int a, s, h => by simp only [canon, Option.some.injEq] at h; simp [norm, enc, ← h]
+  | .bool true, s, h => by simp only [canon, Option.some.injEq] at h; simp [norm, enc, ← h]
+  | .bool false, s, h => by simp only [canon, Option.some.injEq] at h; simp [norm, enc, ← h]
+  | .null, s, h => by simp only [canon, Option.some.injEq] at h; simp [norm, enc, ← h]
+  | .float a, s, h => by simp [canon] at h
+  | .arr xs, s, h => by
+    simp only [canon, Option.map_eq_some_iff] at h
+    obtain ⟨rs, hrs, rfl⟩ := h
+    rw [canonList_eq_encList xs rs hrs]
+    simp [norm, enc]
+  | .obj kvs, s, h => by
+    simp only [canon, Option.map_eq_some_iff] at h
+    obtain ⟨ms, hms, rfl⟩ := h
+    rw [canonMembers_eq_encMembers kvs ms hms, sortMembers_encMembers]
+    simp [norm, enc]
+theorem canonList_eq_encList : ∀ (xs : List JVal) (rs : List Str), canonList xs = some rs → rs = encList (normList xs)
+  | [], rs, h => by simp only [canonList, Option.some.injEq] at h; simp [normList, encList, ← h]
+  | x :: r, rs, h => by
+    simp only [canonList] at h
+    cases hx : canon x with
+    | none => simp [hx] at h
+    | some a =>
+      cases hr : canonList r with
+      | none => simp [hx, hr] at h
+      | some b =>
+        simp only [hx, hr, Option.some.injEq] at h
+        rw [← h, canon_eq_enc_norm x a hx, canonList_eq_encList r b hr]
+        simp [normList, encList]
+theorem canonMembers_eq_encMembers : ∀ (kvs : List (Str × JVal)) (ms : List (Str × Str)),
+    canonMembers kvs = some ms → ms = encMembers (normMembers kvs)
+  | [], ms, h => by simp only [canonMembers, Option.some.injEq] at h; simp [normMembers, encMembers, ← h]
+  | (k, v) :: r, ms, h => by
+    simp only [canonMembers] at h
+    cases hx : canon v with
+    | none => simp [hx] at h
+    | some a =>
+      cases hr : canonMembers r with
+      | none => simp [hx, hr] at h
+      | some b =>
+        simp only [hx, hr, Option.some.injEq] at h
+        rw [← h, canon_eq_enc_norm v a hx, canonMembers_eq_encMembers r b hr]
+        simp [normMembers, encMembers]
+end
+
+/-- **Canonical JSON is injective up to the order in which object members were
+supplied** (at every depth): two values with the same canonical bytes have the
+same member-sorted form. -/
+theorem canon_injective (v w : JVal) (s : Str) (hv : canon v = some s) (hw : canon w = some s) :
+    norm v = norm w := by
+  have h1 := canon_eq_enc_norm v s hv
+  have h2 := canon_eq_enc_norm w s hw
+  have h : enc (norm v) ++ [] = enc (norm w) ++ [] := by rw [List.append_nil, List.append_nil, ← h1, ← h2]
+  exact (enc_inj (norm v) (norm w) [] [] noDigit_nil noDigit_nil h).1
+
+/-- Contrapositive, as used for C09: content that differs (beyond member order)
+has different signable bytes. -/
+theorem canon_ne_of_norm_ne (v w : JVal) (a b : Str) (hv : canon v = some a) (hw : canon w = some b)
+    (hne : norm v ≠ norm w) : a ≠ b := by
+  intro hab
+  subst hab
+  exact hne (canon_injective v w a hv hw)
+
+/-- Objects with the same canonical bytes have the same members up to order
+(values compared in member-sorted form). -/
+theorem canon_obj_members_perm (a b : List (Str × JVal)) (s : Str)
+    (ha : canon (.obj a) = some s) (hb : canon (.obj b) = some s) :
+    (normMembers a).Perm (normMembers b) := by
+  have h := canon_injective _ _ s ha hb
+  simp only [norm, JVal.obj.injEq] at h
+  have p1 : (sortMembers (normMembers a)).Perm (normMembers a) := List.mergeSort_perm _ _
+  have p2 : (sortMembers (normMembers b)).Perm (normMembers b) := List.mergeSort_perm _ _
+  exact p1.symm.trans (h ▸ p2)
+
+/-! ## DSSE pre-authentication encoding -/
+
+/-- For a fixed payload type the PAE is injective in the payload text. -/
+theorem pae_injective (ty a b : Str) (h : pae ty a = pae ty b) : a = b := by
+  unfold pae at h
+  simp only [List.append_assoc, List.cons_append, List.append_cancel_left_eq, List.cons.injEq, true_and] at h
+  have := digits_split _ _ _ _ (natDigits_digits _) (natDigits_digits _)
+    (noDigit_cons ' ' a (by decide)) (noDigit_cons ' ' b (by decide)) h
+  simpa using this.2
+
+/-- Signable bytes of traditional metadata determine the payload JSON up to
+member order; those of an envelope determine the payload text exactly. -/
+theorem signableBytes_injective (p q : Payload) (m : Str)
+    (hp : p.signableBytes = some m) (hq : q.signableBytes = some m) : norm p.toJ = norm q.toJ :=
+  canon_injective _ _ m hp hq
+
+-- a test (evaluated, not proved): member sorting and escaping in the model of `encode_canonical`
+#guard canon (.obj [(lit "b", .int 1), (lit "a", .arr [.null, .str (lit "x\"y")])]) ==
+    some (lit "{\"a\":[null,\"x\\\"y\"],\"b\":1}")
 
 end InToto
